@@ -22,7 +22,7 @@ func init() {
 			"(3) writeEntry: no path from the Write to a nil-error return without Sync; appendLogEntry forwards its sync parameter; every other caller passes cfg.syncWrites, or false only for a temp file that rule 4 shows is synced as a whole before its rename; " +
 			"(4) for every fs.Rename(tmp, final): tmp is `final + \".tmp\"` opened in the same function with O_TRUNC, and no path leads from an unsynced write to that file (direct Write, unsynced writeEntry/appendLogEntry, or a local closure doing so) to the Rename without a Sync of it; no other OpenFile truncates (exception, stated: rebuildSegments, compaction only) and the live segment / groups.log / pids.log handles are opened O_CREATE|O_APPEND; " +
 			"(5) group.commits.set / delp are called only from commitAndPersist / deleteCommitAndPersist (and the loader), where persistGroupEntry of the same key follows on every path and persistGroupEntry appends its parameter; topics created by a handler (data.mkt / tps.mkp on data.tps) are followed by persistTopicsState (or saveToDisk) on every path; " +
-			"(6) readEntries and loadSegmentBatches leave their loop (no path back to the loop head, no continue) unless the entry was appended, the append carries the CRC / length facts, and loadSegmentBatches truncates the torn tail; snapshotMatchesSegments can return true only after asserting equality of segment count, base offsets and file sizes; " +
+			"(6) readEntries and loadSegmentBatches leave their loop (no path back to the loop head, no continue) unless the entry was appended, the append carries the CRC / length facts, and loadSegmentBatches truncates the torn tail, and every state-log loader that keeps the valid length of readEntries truncates the log to it; snapshotMatchesSegments can return true only after asserting equality of segment count, base offsets and file sizes; " +
 			"(7) restart does not panic on an empty segment: pruneEmptySegments keeps a segment only under len(index) > 0 and cuts pd.segments to the kept prefix, and every X.index[...] in loadPartitionFromSnapshot / loadPartitionFullReplay is either guarded by len(X.index) > 0 or lies under pd.hasBatches() after pruneEmptySegments() with no segment appended in between; " +
 			"(8) saveSeqWindows / loadSeqWindows agree: every pidwindow field is stored, the current-format branch (w.Count > 0) restores each field from the JSON field it was stored in (entries element-wise at the same index) and nothing overwrites it before windows.set.",
 		NotDecided: "the crash-point enumeration itself (that recovery from every prefix of the file-operation sequence yields a consistent state); fsync error handling (persistBatchToSegment ignores Sync errors, commitAndPersist ignores persistGroupEntry's error); directory fsync after rename/create; equality of recovered and pre-Close state; rebuildSegments (compaction) removes the old segment files before the replacements exist - reported as an observation, outside the produce/commit scope of the statement.",
